@@ -104,6 +104,23 @@ Proof.
   - rewrite upd_val_notin; [|rewrite Hk; exact n]. apply upd_val_notin. exact n.
 Qed.
 
+(* the same with the saved names given as a list that covers the overwritten ones
+   (VarsManager.temp_params saves every key of its argument, also those it never gets to assign) *)
+Lemma set_all_saved_keys : forall m p K, NoDup (keys m) -> incl (keys p) K ->
+  set_all (map (fun k => (k, getv k m)) K) (set_all p m) = m.
+Proof.
+  intros m p K Hnd Hinc. rewrite !set_all_map, map_map. cbn [fst snd].
+  transitivity (map (fun kv : Z * val => kv) m); [|apply map_id].
+  apply map_ext_in. intros [k v] Hin. cbn [fst snd]. f_equal.
+  assert (Hk : keys (map (fun k : Z => (k, getv k m)) K) = K).
+  { unfold keys. rewrite map_map. cbn [fst]. apply map_id. }
+  destruct (in_dec Z.eq_dec k K) as [i|n].
+  - apply upd_val_const; [rewrite Hk; exact i|].
+    intros x' Hin'. apply in_map_iff in Hin'. destruct Hin' as [k2 [E _]].
+    inversion E; subst. unfold getv. rewrite (lookup_nodup _ _ _ Hnd Hin). reflexivity.
+  - rewrite upd_val_notin; [|rewrite Hk; exact n]. apply upd_val_notin. intro H. apply n. apply Hinc. exact H.
+Qed.
+
 Lemma set_one_back : forall c k v, NoDup (keys c) -> set_one k (getv k c) (set_one k v c) = c.
 Proof. intros c k v H. exact (set_all_saved c [(k, v)] H). Qed.
 
@@ -242,6 +259,7 @@ Section RunFacts.
     - apply Forall_forall. intros f Hin. apply in_map_iff in Hin. destruct Hin as [c [E _]]. subst. apply set_used_chains_ok.
     - constructor; [apply set_used_res_ok|apply ff_pair_steps_ok].
     - constructor; [apply set_used_res_ok|apply ff_pair_steps_ok].
+    - constructor; [|constructor]. intros x. apply set_used_chains_ok.
   Qed.
 
   (* restoring the selection after something that only changed the selection *)
@@ -273,6 +291,8 @@ Section RunFacts.
     - inversion E; subst; cbn. tauto.
     - destruct (has_key _ _); [|discriminate]. inversion E; subst; cbn.
       change (set_one name v (conf s)) with (set_all [(name, v)] (conf s)). rewrite keys_set_all. tauto.
+    - inversion E; subst; cbn. rewrite keys_set_all. tauto.
+    - destruct (forallb _ _); [|discriminate]. inversion E; subst; cbn. rewrite keys_set_all. tauto.
   Qed.
 
   (* exit of a manager after a body that gave the state back as it was at entry *)
@@ -300,6 +320,14 @@ Section RunFacts.
       destruct (has_key _ _); [|discriminate]. inversion E; subst; clear E. cbn in *.
       unfold restored, eqm. cbn. rewrite A5.
       rewrite set_one_back; [|exact G2]. repeat split; auto.
+    - (* AbsPDF.temp_params, assignment raising half-way *)
+      inversion E; subst; clear E. cbn in *. unfold restored, eqm. cbn.
+      rewrite set_all_self; [|exact G1|rewrite A1; apply keys_set_all].
+      repeat split; auto.
+    - (* VarsManager.temp_params, assignment raising half-way *)
+      destruct (forallb _ _); [|discriminate]. inversion E; subst; clear E. cbn in *.
+      unfold restored, eqm. cbn. rewrite A1.
+      rewrite set_all_saved_keys; [|exact G1|apply incl_appl; apply incl_refl]. repeat split; auto.
   Qed.
 
   (* ---- arbitrary nesting, an exception at any evaluation point ---- *)
@@ -312,7 +340,8 @@ Section RunFacts.
       eapply restored_trans; [exact Ra|]. apply IHb. eapply good_eqm; [apply Ra|exact G].
     - cbn [run]. rewrite with_block_st.
       destruct (blk_enter e b s) as [[s1 sv]|] eqn:E; [|apply restored_refl].
-      apply (blk_exit_restores b s s1 sv _ E G). apply IH. exact (blk_enter_inv b s s1 sv E G).
+      apply (blk_exit_restores b s s1 sv _ E G).
+      destruct (blk_raises b); [apply restored_refl|]. apply IH. exact (blk_enter_inv b s s1 sv E G).
     - cbn [run]. apply run_helper_restores.
     - cbn [run]. rewrite try_finally_st. apply chains_back.
       assert (Hinv : (fun x => sbc x s /\ good x) (st_of (snd
@@ -413,6 +442,39 @@ Proof. vm_compute. reflexivity. Qed.
 Lemma old_fitfractions_exn_leaks :
   cidx (st_of (snd (old_fitfractions ex_env (fun n _ => Nat.eqb n 1) [0; 1; 2] [0; 1] 1
                       (O, []) ex_state))) = [0].
+Proof. vm_compute. reflexivity. Qed.
+
+(* finding C17-2: values assigned before the try stayed when the assignment raised half-way *)
+Lemma old_temp_params_bad_leaks : forall p s,
+  set_all p (vars s) <> vars s ->
+  vars (st_of (snd (old_temp_params_bad p (O, []) s))) <> vars s.
+Proof. intros p s D. exact D. Qed.
+Lemma old_temp_params_bad_example :
+  vars (st_of (snd (old_temp_params_bad [(1, (5, 8))] (O, []) ex_state))) = [(0, (1, 2)); (1, (5, 8)); (3, (1, 1))].
+Proof. vm_compute. reflexivity. Qed.
+(* the repaired managers on the same input: nothing stays, the exception still reaches the caller *)
+Lemma temp_params_bad_ok : forall e ev p body w s, good s ->
+  restored e s (st_of (snd (run e ev (PWith (BTempParamsBad p) body) w s))) /\
+  is_exn (snd (run e ev (PWith (BTempParamsBad p) body) w s)) = true.
+Proof.
+  intros e ev p body w s G. split; [apply run_restores; exact G|].
+  cbn [run]. rewrite with_block_exn. cbn [blk_enter blk_raises]. reflexivity.
+Qed.
+Lemma vm_temp_params_bad_ok : forall e ev p rest body w s, good s ->
+  restored e s (st_of (snd (run e ev (PWith (BVmTempParamsBad p rest) body) w s))) /\
+  is_exn (snd (run e ev (PWith (BVmTempParamsBad p rest) body) w s)) = true.
+Proof.
+  intros e ev p rest body w s G. split; [apply run_restores; exact G|].
+  cbn [run]. rewrite with_block_exn. cbn [blk_enter blk_raises].
+  destruct (forallb _ _); reflexivity.
+Qed.
+
+(* finding C17-3: an exception inside build_params_vector left the narrowed selection [0] *)
+Lemma old_cached_shape_pdf_exn_leaks :
+  cidx (st_of (snd (old_cached_shape_pdf ex_env (fun n _ => Nat.eqb n 0) [1; 2] (O, []) ex_state))) = [0].
+Proof. vm_compute. reflexivity. Qed.
+Lemma cached_shape_pdf_exn_ok :
+  st_of (snd (run_helper ex_env (fun n _ => Nat.eqb n 0) (HCachedShapePdf [1; 2]) (O, []) ex_state)) = ex_state.
 Proof. vm_compute. reflexivity. Qed.
 
 (* F11: the masked view written back: the mask value 3/4 stays in variable 0 after both blocks *)
